@@ -89,6 +89,26 @@ class Gated(nn.Module):
         return self.l2(h)
 
 
+class TwoHead(nn.Module):
+    """Both heads run in every forward pass, only one of them (alternating)
+    reaches the loss: inside an accumulation window of 2 each head sees two
+    forward passes and one backward pass."""
+
+    def __init__(self):
+        super().__init__()
+        self.trunk = nn.Linear(3, 3)
+        self.act = nn.Tanh()
+        self.h1 = nn.Linear(3, 2)
+        self.h2 = nn.Linear(3, 2)
+        self.calls = 0
+
+    def forward(self, x):
+        h = self.act(self.trunk(x))
+        y1, y2 = self.h1(h), self.h2(h)
+        self.calls += 1
+        return y1 if self.calls % 2 else y2
+
+
 def build_model(name, dtype=torch.float32, seed=0):
     if name == 'mlp3':
         m = nn.Sequential(nn.Linear(3, 4), nn.Tanh(), nn.Linear(4, 2),
@@ -120,6 +140,8 @@ def build_model(name, dtype=torch.float32, seed=0):
                           nn.Linear(10, 8, bias=False))
     elif name == 'gated':
         m = Gated()
+    elif name == 'twohead':
+        m = TwoHead()
     elif name == 'mixed':   # registered + unregistered parameters
         m = nn.Sequential(nn.Linear(3, 4), nn.LayerNorm(4), nn.Tanh(),
                           nn.Linear(4, 2))
@@ -138,7 +160,7 @@ def input_shape(name, batch):
         'mlp3': (batch, 3), 'mlp2': (batch, 3), 'lin1': (batch, 3),
         'sq': (batch, 2), 'conv': (batch, 1, 3, 3),
         'convsq': (batch, 2, 2, 3), 'seq3d': (batch, 2, 3),
-        'mixed': (batch, 3), 'wide': (batch, 12), 'nbfirst': (batch, 3), 'nested': (batch, 3), 'gated': (batch, 3),
+        'mixed': (batch, 3), 'wide': (batch, 12), 'nbfirst': (batch, 3), 'nested': (batch, 3), 'gated': (batch, 3), 'twohead': (batch, 3),
     }[name]
 
 
